@@ -48,7 +48,8 @@ var policies = []*metav1.DeletionPropagation{
 }
 
 func genRef(t *rapid.T, label string) resRef {
-	r := resRef{ID: rapid.SampledFrom([]int{0, 0, 0, 1, 2, 3, 4}).Draw(t, label+".id"), Ver: rapid.SampledFrom(versions).Draw(t, label+".ver")}
+	r := resRef{ID: rapid.SampledFrom([]int{0, 0, 0, 1, 2, 3, 4, 5, 5}).Draw(t, label+".id")}
+	r.Ver = rapid.SampledFrom(idents[r.ID].versions()).Draw(t, label+".ver")
 	switch rapid.IntRange(0, 4).Draw(t, label+".mode") {
 	case 0, 1:
 		r.ByName = true
@@ -72,6 +73,7 @@ func genUsage(t *rapid.T, name string) usageSpec {
 		// A using resource that is also the used one is pointless; steer to another identity.
 		if by.ID == us.Of.ID {
 			by.ID = (by.ID + 1) % len(idents)
+			by.Ver = idents[by.ID].versions()[0]
 		}
 		us.By = &by
 		us.Reason = rapid.Bool().Draw(t, "reasonToo")
@@ -118,7 +120,7 @@ func (m *machine) opCreateResource(t *rapid.T) bool {
 	}
 	i := rapid.SampledFrom(absent).Draw(t, "resource")
 	id := idents[i]
-	ver := rapid.SampledFrom(versions).Draw(t, "version")
+	ver := rapid.SampledFrom(id.versions()).Draw(t, "version")
 	lbls := map[string]any{"tier": rapid.SampledFrom([]string{"x", "y"}).Draw(t, "tier")}
 	if rapid.IntRange(0, 5).Draw(t, "prelabelled") == 0 {
 		// Anyone can put the marker label on a resource.
@@ -133,7 +135,7 @@ func (m *machine) opCreateResource(t *rapid.T) bool {
 		meta["annotations"] = map[string]any{resourceNameAnnotation: templateName(i)}
 		lbls[compositeLabel] = o
 	}
-	obj := verifsim.Obj{"apiVersion": id.Group + "/" + ver, "kind": id.Kind, "metadata": meta, "spec": map[string]any{"v": "1"}}
+	obj := verifsim.Obj{"apiVersion": id.apiVersion(ver), "kind": id.Kind, "metadata": meta, "spec": map[string]any{"v": "1"}}
 	err := m.w.sim.Client("user").Create(context.Background(), verifsim.U(obj))
 	m.w.logf("CREATE %s %s/%s labels=%v owner=%v -> %v", id.key(), id.Group, ver, lbls, meta["ownerReferences"] != nil, err)
 	if err != nil {
@@ -150,7 +152,7 @@ func (m *machine) opDeleteResource(t *rapid.T) bool {
 	} else {
 		i = rapid.IntRange(0, len(idents)-1).Draw(t, "resource")
 	}
-	ver := rapid.SampledFrom(versions).Draw(t, "version")
+	ver := rapid.SampledFrom(idents[i].versions()).Draw(t, "version")
 	pol := rapid.SampledFrom(policies).Draw(t, "policy")
 	m.w.rec.Labelf("delete:policy=%s", policyString(pol))
 	m.w.checkedDelete("user", idents[i].key(), ver, pol)
@@ -176,6 +178,12 @@ func (m *machine) opCreateUsage(t *rapid.T) bool {
 	m.usages[us.Name] = us
 	m.w.rec.Labelf("usage:of-byname=%v,sel=%v", us.Of.ByName, us.Of.Sel)
 	m.w.rec.Labelf("usage:by=%v", us.By != nil)
+	if idents[us.Of.ID].Group == "" {
+		m.w.rec.Label("usage:of-a-core-group-resource")
+	}
+	if us.By != nil && idents[us.By.ID].Group == "" {
+		m.w.rec.Label("usage:by-a-core-group-resource")
+	}
 	return true
 }
 
@@ -345,7 +353,7 @@ func wrap(f func(*rapid.T) bool) func(*rapid.T) {
 	}
 }
 
-const machineRule = "rapid state machine over 5 shared cluster-scoped resource identities (2 groups, 2 kinds, 3 names of one kind, 2 served versions; each created uncontrolled or controlled by one of two owners) and up to 4 Usages (v1alpha1/v1beta1; of/by by resourceRef, by resourceSelector with matchLabels and matchControllerRef true/false/unset, or both; reason-only; replayDeletion; composed or not): create/delete of resources and Usages in any order, DELETE requests in either version with every propagation policy through usage.yaml's objectSelector/rules and the real handler, real Usage reconciles with 0-2 injected faults, reconciles parked before a drawn API call while 1-3 other actions run, GC steps, the P&T composer's apply of composed Usages, and both composers' garbage collection (real GarbageCollectingAssociator.AssociateTemplates with named templates / real DeletingComposedResourceGarbageCollector) of composed resources whose template was dropped, their Update watched by the marker monitors and their Delete sent through the same admission path; non-trivial = a DELETE while >=2 Usages name the resource, or in another version than a naming Usage, or while a Ready Usage protects it, or a parked (interleaved) reconcile, or a composer GC of a protected resource"
+const machineRule = "rapid state machine over 6 shared cluster-scoped resource identities (2 named groups with 2 served versions plus the core group (apiVersion v1, a Namespace); 3 kinds, 3 names of one kind; each created uncontrolled or controlled by one of two owners) and up to 4 Usages (v1alpha1/v1beta1; of/by by resourceRef, by resourceSelector with matchLabels and matchControllerRef true/false/unset, or both; reason-only; replayDeletion; composed or not): create/delete of resources and Usages in any order, DELETE requests in either version with every propagation policy through usage.yaml's objectSelector/rules and the real handler, real Usage reconciles with 0-2 injected faults, reconciles parked before a drawn API call while 1-3 other actions run, GC steps, the P&T composer's apply of composed Usages, and both composers' garbage collection (real GarbageCollectingAssociator.AssociateTemplates with named templates / real DeletingComposedResourceGarbageCollector) of composed resources whose template was dropped, their Update watched by the marker monitors and their Delete sent through the same admission path; non-trivial = a DELETE while >=2 Usages name the resource, or in another version than a naming Usage, or while a Ready Usage protects it, or a parked (interleaved) reconcile, or a composer GC of a protected resource"
 
 // TestVerifC19Machine is the main check: all four clauses over generated histories.
 func TestVerifC19Machine(t *testing.T) {
@@ -398,7 +406,7 @@ func (w *world) mustCreate(o verifsim.Obj) {
 }
 
 func thing(id ident, ver string) verifsim.Obj {
-	return verifsim.Obj{"apiVersion": id.Group + "/" + ver, "kind": id.Kind, "metadata": map[string]any{"name": id.Name, "labels": map[string]any{"tier": "x"}}, "spec": map[string]any{"v": "1"}}
+	return verifsim.Obj{"apiVersion": id.apiVersion(ver), "kind": id.Kind, "metadata": map[string]any{"name": id.Name, "labels": map[string]any{"tier": "x"}}, "spec": map[string]any{"v": "1"}}
 }
 
 // TestVerifC19Sanity guards against a vacuously quiet harness: the scripted
@@ -543,6 +551,38 @@ func TestVerifC19Pinned(t *testing.T) {
 				}
 				rec.NonTrivial("uncontrolled-candidate|"+ctx, func() any { return w.hist })
 			}
+		}
+	})
+	t.Run("core-group-used-resource", func(t *testing.T) {
+		// Class raised by a seeded change: the used resource is in the core group
+		// (apiVersion "v1", no group part). The index key the Usages are filed under
+		// and the key the webhook and the deletion reconcile look up must agree there
+		// too: two Usages of a Namespace, deleting one keeps the marker, the DELETE of
+		// the Namespace is refused and recorded until the last Usage is gone.
+		rec.Eval()
+		w, vios := collectingWorld(rec)
+		ns := idents[5]
+		w.mustCreate(thing(ns, "v1"))
+		for _, n := range []string{"u0", "u1"} {
+			w.mustCreate(w.renderUsage(usageSpec{Name: n, APIVer: "v1beta1", Of: resRef{ID: 5, Ver: "v1", ByName: n == "u0", Sel: n == "u1", Tier: "x"}, Reason: true}))
+			w.reconcile(n, nil)
+		}
+		if out := w.checkedDelete("user", ns.key(), "v1", ptr.To(metav1.DeletePropagationForeground)); !out.invoked || !out.refused {
+			*vios = append(*vios, fmt.Sprintf("DELETE of the Namespace with two Ready Usages: %+v", out))
+		}
+		w.checkedDelete("user", usageKey("u0"), "v1beta1", nil)
+		w.reconcile("u0", nil)
+		if out := w.checkedDelete("user", ns.key(), "v1", nil); !out.refused || !w.markerPresent(w.sim.Get(ns.key())) {
+			*vios = append(*vios, fmt.Sprintf("DELETE of the Namespace with one Usage left: %+v, labels %v", out, verifsim.Labels(w.sim.Get(ns.key()))))
+		}
+		w.checkedDelete("user", usageKey("u1"), "v1beta1", nil)
+		w.reconcile("u1", nil)
+		if out := w.checkedDelete("user", ns.key(), "v1", nil); out.refused || out.err != nil || w.sim.Get(ns.key()) != nil {
+			*vios = append(*vios, fmt.Sprintf("DELETE of the Namespace after its last Usage is gone: %+v", out))
+		}
+		rec.NonTrivial("core-group", func() any { return w.hist })
+		if len(*vios) > 0 {
+			t.Fatalf("%s", strings.Join(*vios, "\n"))
 		}
 	})
 	t.Run("composer-gc-of-a-protected-resource", func(t *testing.T) {
